@@ -74,6 +74,10 @@ func (g *GRU) Apply(inputs []tensor.Tensor) ([]tensor.Tensor, error) {
 		return nil, ops.ErrUnsupportedInput("sequence lens", g)
 	}
 
+	if len(g.activations) < 2 {
+		return nil, ops.ErrInvalidAttribute(ops.ActivationsAttr, g)
+	}
+
 	X := inputs[0]
 	seqLength := X.Shape()[0]
 	batchSize := X.Shape()[1]
